@@ -1,4 +1,5 @@
 import ComposeVerif.Lemmas.ShortIdem
+import ComposeVerif.Lemmas.ShortIdemAny
 /-!
 # C03 — `canonical_idem`: canonicalising twice is canonicalising once
 
@@ -15,6 +16,18 @@ theorem canonical_idem (v w : Val) (h : canonical false v = .ok w) : canonical f
 /-- the same at any path of the tree (what the loader relies on when an `extends` base is canonicalised again after the merge) -/
 theorem transform_idem (p : TPath) (v w : Val) (h : transform false p v = .ok w) : transform false p w = .ok w :=
   idem_T v p w h
+
+/-- the same for either value of `ignoreParseError` (with `true`, which the loader passes when interpolation is skipped,
+an unparsable short string is kept as it is, and kept again by the second pass) -/
+theorem canonical_idem_any (ign : Bool) (v w : Val) (h : canonical ign v = .ok w) : canonical ign w = .ok w :=
+  idem_TA ign v TPath.root w h
+
+theorem transform_idem_any (ign : Bool) (p : TPath) (v w : Val) (h : transform ign p v = .ok w) : transform ign p w = .ok w :=
+  idem_TA ign v p w h
+
+/-- non-vacuity for `ignoreParseError = true`: an unparsable volume string is kept, twice -/
+example : canonical true (.map [("services", .map [("a", .map [("volumes", .seq [.str "vol::b"])])])])
+    = .ok (.map [("services", .map [("a", .map [("volumes", .seq [.str "vol::b"])])])]) := by rfl
 
 /-- non-vacuity: a document with short forms is accepted, and its canonical form is a fixed point -/
 example : ∃ w, canonical false (.map [("services", .map [("a", .map [("build", .str "."), ("dns", .str "1.1.1.1")])])]) = .ok w :=
